@@ -102,7 +102,8 @@ def run(chk, fb, tier):
                         effects.append((n, "store"))
             if is_call(n) and n["callee"]["name"].startswith("fireParameter"):
                 effects.append((n, "notify"))
-        chk.floor("D3", "throws in " + q, len(throws), 1)
+        if not throws:
+            chk.unknown("D3", f.key, "no-rejecting-path", f.loc(), "no throw left in %s: nothing to order (the missing guard is rule D1's finding)" % q)
         for t in throws:
             bad = [e for e, what in effects if e1.before_in_function(cfg, e, t)]
             if bad:
